@@ -200,6 +200,15 @@ class _DehintingT2Decompiler(T2WidthExtractor):
                 else:
                     hints.status = 1  # There's *something* here
             hints.last_checked = len(charString.program)
+            if (
+                hints.status != 2
+                and charString.program
+                and charString.program[-1] == "endchar"
+            ):
+                # The final token was not looked at above (in a subroutine it
+                # is normally 'return'), but an 'endchar' is an operator that
+                # has to survive: this charstring is not empty without hints.
+                hints.status = 2
 
         if old_hints:
             assert hints.__dict__ == old_hints.__dict__
